@@ -173,6 +173,34 @@ def decodeRawVariant (toks : List String) : Option RawVariant := do
   let attrs ← if a = "-" then some [] else (a.splitOn "|").mapM (fun g => (g.splitOn ";").mapM decodeVItem)
   pure { ident := ident, fields := fields, discr := discr, docs := docs, attrs := attrs }
 
+def decodeEItem (s : String) : Option EItem :=
+  match s.splitOn "~" with
+  | ["sa", v] => (decodeStr v).map (fun b => .serializeAll (String.ofList (b.map Char.ofNat)))
+  | ["ci"] => some .ci
+  | ["pfx", v] => (decodeStr v).map .pfx
+  | ["phf"] => some .usePhf
+  | ["pty"] => some .parseErrTy
+  | ["pfn"] => some .parseErrFn
+  | ["cis"] => some .constIntoStr
+  | ["crate"] => some .cratePath
+  | _ => none
+
+/-- `rawenum <id> name=.. attrs=g1|g2 reprattrs=.. dname=.. dvis=..` (items of a group separated by `;`) -/
+def decodeRawEnum (toks : List String) : Option RawEnum := do
+  let name ← decodeStr (← kv toks "name")
+  let a ← kv toks "attrs"
+  let attrs ← if a = "-" then some [] else (a.splitOn "|").mapM (fun g => (g.splitOn ";").mapM decodeEItem)
+  let ra := match kv toks "reprattrs" with
+    | some s => decodeReprAttrs s
+    | none => []
+  let dname := match kv toks "dname" with
+    | some s => (decodeOptStr s).getD none
+    | none => none
+  let dvis := match kv toks "dvis" with
+    | some s => s.toNat?.getD 0
+    | none => 0
+  pure { name := name, attrs := attrs, reprAttrs := ra, discName := dname, discVis := dvis }
+
 def showFieldInit : FieldInit → String
   | .dflt => "D"
   | .dfltWith f => "W" ++ encodeStr f
